@@ -434,5 +434,5 @@ func c13Listener(w *W) {
 }
 
 func init() {
-	register(&Scenario{Name: "pipe-lifecycle-listener", Prop: "C13", Horizon: 10 * time.Minute, Run: c13Listener})
+	register(&Scenario{Name: "pipe-lifecycle-listener", Prop: "C13", Horizon: 10 * time.Minute, Weight: 16, Run: c13Listener})
 }
